@@ -136,7 +136,7 @@ ADDENDA = {
     "C08": dict(text=" Producers include the planar casts (rebuild from the angle)."),
     "C13": dict(text=" R-MPT.funnel-last: in every constructor the validating step is the last access to the coefficient storage.", design="3/C13, 10.7"),
     "C15": dict(technique="; end points as identities of group terms (R-END, free-group reduction)",
-                text=" R-END: for SLERP, CUBIC and CNSMOOTH (degrees 1..4) the group term of the routine with the weights evaluated exactly at t = 0 / 1 reduces to A / B in the free group over {A, B, exp(v)} using associativity, X X^-1 = e, exp(0) = e, exp(-v) = exp(v)^-1, exp(log W) = W - for arbitrary end velocities and every group (96 identities).",
+                text=" R-END: for SLERP, CUBIC and CNSMOOTH (degrees 1..4) the group term of the routine with the weights evaluated exactly at t = 0 / 1 reduces to A / B in the free group over {A, B, exp(v)} using associativity, X X^-1 = e, exp(0) = e, exp(-v) = exp(v)^-1, exp(log W) = W - for arbitrary end velocities and every group (96 identities). R-SERIES.slerp (semantic, spelling-independent): for SO2, SE2, SO3, with A = exp(e x), B = A exp(e y) and symbolic tau, T(interpolate_slerp(A,B,tau)) = T(A) sum_k (tau e hat(y))^k/k! through order 3, i.e. the geodesic law log(A^-1 m(tau)) = tau log(A^-1 B) in every direction.",
                 note_replace="A genuine defect found by R-END (interpolate_cubic returned B at t=0 and A at t=1) was repaired by a fix: commit. NOT decided: equivariance, interior values, rounding.", design="3/C15, 10.7"),
     "C17": dict(text=" R-LIN.window: window t of the control-point loop nest takes trajectory[t*(degree-1)+n] (exact evaluation of the subscript for degree 2..6 with symbolic loop counters).", design="3/C17, 10.9"),
     "C16": dict(text=" R-ITER.fresh: nothing derived from the iterate before the max_iterations loop is read inside it without being recomputed in the same pass.", design="3/C16, 10.7"),
